@@ -540,6 +540,23 @@ func C03(p *engine.Prog, r *engine.Report) {
 	importRules(p, r, "C08", map[string]string{"C08-R4": "C03-R8"})
 	c03R9(p, r)
 	processTxsExhaustiveRule(p, r, "C03-R9")
+	// no result of a fallible call is consumed before that call's error test (belief contradiction:
+	// the code tests the error, so it believes the call can fail — and uses the value first)
+	{
+		scanned := 0
+		for _, pkg := range []string{"blockchain", "blockchain/validation", "blockchain/types", "core/state", "core/appstate", "core/validators", "consensus", "database"} {
+			for _, f := range funcsOfPkg(p, pkg) {
+				if f.Blocks == nil || isTestish(p.Pos(f.Pos())) || strings.Contains(p.Pos(f.Pos()), ".pb.go") {
+					continue
+				}
+				scanned++
+				for _, c := range useBeforeErrCheck(f) {
+					r.Bad("C03-R9", uniq(r, engine.RelName(f)+"|result of "+calleeShort(c.Call)+" used before its error test"), p.InstrPos(c.Use), "the value is consumed here, the error of the call that produced it is tested only at "+p.InstrPos(c.Test)+": on the failing input the validator works with a zero / partial value before it refuses (or compares it and accepts)")
+				}
+			}
+		}
+		r.Check(scanned > 800, "C03-R9", "validating packages|no result consumed before its error test", "", itoa(int64(scanned))+" functions scanned, no contradiction", "scan too small: "+itoa(int64(scanned))+" functions")
+	}
 }
 
 func c03R2(p *engine.Prog, r *engine.Report, ctx *c03ctx) {
